@@ -173,7 +173,7 @@ def checksum_of(hist):
 class C16:
     ID = "C16"
     LEVEL = "exploration"
-    TIMEOUT = 120.0
+    TIMEOUT = 40.0
     RULE = ("case = generated loop program with a bounded live set (ring of 1-60 slots of 11 object kinds replaced for ever; optional "
             "transient spikes of 500-6000 live objects at the start or in the middle) and a random subset of 35 per-iteration garbage "
             "statements (every object kind, iterators, fibers finished/abandoned/resumed, classes and subclasses declared in the loop, "
